@@ -7,11 +7,16 @@ def run(ctx: Ctx) -> int:
     t = ctx.pick(200, 900)
     jobs = [Job(H, fn, timeout=t) for fn in ("h_use_once", "h_two_objects", "h_frozenlist_operators", "h_struct_setattr")]
     jobs += [Job(H, "h_frozenlist", timeout=t, name=f"h_frozenlist[shard {i + 1}/8]", env={"VERIF_C22_SHARD": f"{i}/8"}) for i in range(8)]
-    ctx.functions_encoded = ["tracing/object.py: GuppyObject.__init__, GuppyObject._use_wire, ObjectUse, GuppyObjectId, GuppyStructObject.__init__/__getattr__/__setattr__",
+    jobs += [Job("harness/C22_scripts.py", "h_script", timeout=t, name="h_script[use scripts through the real tracer]", session_call="h_session()")]
+    ctx.functions_encoded = ["tracing/function.py: trace_function (leak report at the end, borrowed arguments handed back), trace_call (arguments marked as used, write-back through "
+                             "update_packed_value); tracing/unpacking.py: guppy_object_from_py, unpack_guppy_object, update_packed_value — through the real check() + lowering of "
+                             "150 generated comptime functions","tracing/object.py: GuppyObject.__init__, GuppyObject._use_wire, ObjectUse, GuppyObjectId, GuppyStructObject.__init__/__getattr__/__setattr__",
                              "tracing/frozenlist.py: frozenlist (every override; the method list is taken from dir(list) at run time)", "tracing/util.py: get_calling_frame"]
     ctx.bounds = {"object": "copy/drop bounds symbolic (copyable => droppable), created used or unused, 0..3 uses", "frozenlist": "lists of 0..3 elements, every callable attribute of list x 11 argument tuples (solver-enumerated), "
                   "6 in-place statement forms", "struct": "frozen or not, fields of copyable (int) or non-copyable (array, qubit-like) type, 2 fields + 1 unknown name, symbolic value"}
-    ctx.outside_claim = ["the end-of-function leak report in trace_function and guppy_object_from_py's checks at call boundaries (need a HUGR builder)", "explicit re-initialisation frozenlist.__init__(...) and object.__setattr__ bypasses",
+    ctx.bounds["scripts"] = ("5 value kinds (owned qubit, local qubit, borrowed qubit, owned droppable non-copyable value, element of an owned qubit array) x every sequence of up to 3 uses "
+                             "(lend / consume) x ending (fall off the end / return it) = 150 comptime functions; oracle = the statement's rule")
+    ctx.outside_claim = ["comptime bodies that catch the tracer's exceptions themselves (try / except around an ill-typed call)", "explicit re-initialisation frozenlist.__init__(...) and object.__setattr__ bypasses",
                          "which containers unpack_guppy_object freezes"]
     ctx.assumptions = ["stand-in tracing state exposing unused_undroppable_objs", "copyable => droppable for every Guppy type"]
     ctx.crosshair(jobs)
